@@ -13,18 +13,26 @@ SPEC = dict(
          "Hessian, ray, support point, bounding sphere, curvature) x shape (half space, sphere, cylinder, ellipsoid, torus, "
          "brick=Geo::Box, smooth height map) from VERIF_SEED, query points with every coordinate away from 0; "
          "mode 'degenerate': named witnesses (centre, axes, symmetry planes inside/outside the evolute, on-surface, "
-         "coincident radii, parallel/tangent rays, torus centre circle, box ties) x n/200 random parameter sets; "
+         "coincident radii, spheroids on axis / in the equatorial plane, parallel / nearly parallel / tangent rays, torus centre "
+         "circle, box ties) x n/200 random parameter sets with randomly permuted ellipsoid axes; "
          "distinct = distinct input records",
-    partial="closed-form shapes are modelled and proved; the ellipsoid's largest real root is taken as an input of the model "
-            "(the vendored Jenkins-Traub solver is not modelled; the driver brackets the root of the *model's* degree-6 "
-            "polynomial) and the theorems carry the guard t + a_i^2 != 0 (on_surface, KKT) resp. > 0 (global minimality) "
-            "which the harness validates per case through the exact-distance predicate; torus minimality, ellipsoid "
-            "principal curvatures (findParaboloidAtPoint), calcSurfacePrincipalCurvatures, the smooth height map "
-            "(BicubicSurface) and triangle meshes (see C36) are decided by implementation-side predicates only; "
-            "cylinder/ellipsoid ray theorems are not stated (sphere and half space are)",
+    partial="(i) PROVED about the executed model: value/gradient/Hessian (jets) for half space, sphere, cylinder, ellipsoid, "
+            "torus; nearest point on the surface and nearest for half space, sphere, cylinder, box, ellipsoid (given the root "
+            "and the guard t + a_i^2 > 0, which is derived for the largest real root of a generic query: "
+            "Ell.largest_root_guarded / nearest_correct_generic), torus on the surface (generic branch); inside flags; unit "
+            "normal of the ellipsoid query; support points; bounding spheres; ray first hit for half space, sphere, ellipsoid "
+            "(distance and hit point; the returned normal is not constrained by the theorems); sphere curvature 1/r. "
+            "(ii) PREDICATE ONLY: that the library's Jenkins-Traub root is the largest real root (not modelled; the driver "
+            "brackets the root of the model's own degree-6 polynomial; exact_distance enumerates all KKT candidates in long "
+            "double in every class), ellipsoid non-generic classes, torus minimality and z-axis branch, Cyl.ray (no theorem), "
+            "all ray normals, curvature consistency (curvInDir vs Hessian, Gauss = k1 k2, findParaboloidAtPoint, "
+            "calcSurfacePrincipalCurvatures), smooth height map (BicubicSurface). (iii) NOT COVERED: triangle meshes (C36), "
+            "HalfSpace/Cylinder::getBoundingSphere, projectDownhillToNearestPoint, Geo::Box_<float>. On the known F5 / "
+            "parallel-axis records the Float model (0/0 = NaN; `0 < b` test) and the library differ; they are reported "
+            "through their failing predicates",
     assumptions=["libm sqrt is trusted: the model takes sqrt as a parameter with SqrtSpec (satisfied by Real.sqrt, "
                  "SimbodyProofs/C34_nonvacuity.lean)",
                  "jet lift of sqrt (chain rule) is a definition (DESIGN.md section 3 item 6)",
                  "ContactGeometry::Brick::findNearestPoint/intersectsRay are unimplemented in the code; the brick is "
-                 "checked through the Geo::Box it exposes (getGeoBox) and through calcSupportPoint/getBoundingSphere"],
+                 "checked through a Geo::Box built from the same half lengths and through calcSupportPoint/getBoundingSphere"],
 )
